@@ -12,13 +12,14 @@ CONFIGS_QUICK = ["A"]
 CONFIGS_THOROUGH = ["A", "R"]
 TECHNIQUE = ('entry-by-entry comparison of the compiled calendar tables with their defining formulae; path-min/max count of unchecked writes vs capacity on the '
              'built MIR; def-use ordering of table reads against reassignment of their index variable')
-LEVEL_TEXT = ('Decides clauses C20-a..d: YEAR_DELTAS (401 entries), YEAR_TO_FLAG (400) and OL_TO_MDL (733), read from the evaluated constants of the compiled crate, '
+LEVEL_TEXT = ('Decides clauses C20-a..e: YEAR_DELTAS (401 entries), YEAR_TO_FLAG (400) and OL_TO_MDL (733), read from the evaluated constants of the compiled crate, '
               "equal the Gregorian-calendar formulae they stand for (leap-year counts, weekday/leap flag of 1 January under this source's own Of::weekday decoding, "
               "ordinal->month/day deltas from the month lengths); the weekday and month name tables equal RFC 9110's day-name/month lists in the order the index "
               'functions assume; into_imf_fixdate performs exactly 29 unchecked single-byte writes on every path into its 29-byte buffer, each followed by the index '
               'increment, and itoa at most 1+MAX pushes into a buffer of capacity 1+MAX; in the date arithmetic a calendar-table entry read for a mutable year '
               'variable is never used after that variable was reassigned (the year borrow in Date::from_days re-reads the table); no quotient or remainder is taken '
-              'of a function input that was first cast to fewer bits. Decides these clauses, not the day/year arithmetic or the digit extraction for all inputs.')
+              'of a function input that was first cast to fewer bits; where a comparison limits a table index, the largest admitted index is the last entry of the '
+              'table. Decides these clauses, not the day/year arithmetic or the digit extraction for all inputs.')
 
 
 def run(ck, progs):
@@ -31,6 +32,7 @@ def run(ck, progs):
         ck.guard("C20-b BOUND", lambda: c20b_hex(ck, prog))
         ck.guard("C20-c ORDER table read", lambda: c20c(ck, prog))
         ck.guard("C20-d ORDER reduce before truncating", lambda: c20d(ck, prog))
+        ck.guard("C20-e BOUND table index range", lambda: c20e(ck, prog))
     ck.config = None
 
 
@@ -422,3 +424,58 @@ def c20d(ck, prog):
                       "(e.g. seconds of the day for a timestamp >= 2^32)" % (f.key, what, sty, dty, f.loc(csp), BITS[dty], what.lower()))
     ck.ob(R, "all-reductions-on-full-width-values", True, "", how="%d division/remainder site(s) in time.rs and num.rs, none applied to a truncated operand" % n, nontrivial=False)
     ck.floor(R, "division/remainder sites examined", n, 20)
+
+
+def c20e(ck, prog):
+    """A calendar table is read at an index that a comparison limits: the largest index the guard admits must be the last
+    entry of the table -- smaller and an entry (e.g. day 366 of a leap year) can never be looked up, larger and the read
+    leaves the table."""
+    R = "C20-e BOUND table index range"
+    n = 0
+    for f in prog.fns.values():
+        if f.crate != "ohkami_lib" or not f.key.startswith("ohkami_lib::time::"):
+            continue
+        reads = []  # (bb, span, N, index operand, table name)
+        for c in f.calls():
+            if c.name not in ("get_unchecked", "index", "get") or len(c.args) < 2:
+                continue
+            st = f.origin(c.args[0])
+            if not st or st[-1][0] != "const":
+                continue
+            m = re.search(r"\[\w+; (\d+)\]", st[-1][1].get("ty", "") or "")
+            if m:
+                reads.append((c.bb, c.sp, int(m.group(1)), c.args[1], (st[-1][1].get("def") or "table").rsplit("::", 1)[-1]))
+        for bi in sorted(f.live_blocks()):
+            t = f.blocks[bi]["t"]
+            if t["k"] == "assert" and "BoundsCheck" in str(t.get("msg", "")) and len(t.get("ops", [])) == 2:
+                ln = f.origin(t["ops"][0])
+                if ln and ln[-1][0] == "const" and guards.const_int(ln[-1][1]) is not None:
+                    reads.append((bi, t.get("sp"), guards.const_int(ln[-1][1]), t["ops"][1], "array"))
+        for (rbb, rsp, N, iop, tname) in reads:
+            idx = f.origin(iop)
+            # index value through widening casts
+            tops = []
+            for fa in guards.facts_at(f, prog, rbb):
+                if fa.kind != "cmp":
+                    continue
+                for a, b, op in ((fa.lhs, fa.rhs, fa.op), (fa.rhs, fa.lhs, guards.FLIP[fa.op])):
+                    if b and b[-1][0] == "const" and guards.const_int(b[-1][1]) is not None and decision.describe_deep(f, ["c", [0, []]], 0) is not None:
+                        k = guards.const_int(b[-1][1])
+                        da = guards.describe_origin(f, a)
+                        if op == "Le":
+                            tops.append((k, da))
+                        elif op == "Lt":
+                            tops.append((k - 1, da))
+            # keep the comparisons made on the index value itself
+            iv = guards.describe_origin(f, idx)
+            tops = [k for k, da in tops if da == iv or da.split(" ")[0] == iv.split(" ")[0]]
+            if not tops:
+                continue
+            n += 1
+            top = min(tops)
+            ok = top == N - 1
+            ck.ob(R, "%s:%s" % (f.key.split("::", 2)[2][:40], tname), ok, f.loc(rsp),
+                  "" if ok else "%s reads %s (%d entries) at an index limited to <= %d: %s" % (f.key, tname, N, top,
+                  ("entry %d can never be looked up (for OL_TO_MDL: the last day of a leap year gets the fallback value)" % (N - 1)) if top < N - 1 else "the read can leave the table"),
+                  how="largest admitted index %d = last entry of the %d-entry table" % (top, N))
+    ck.floor(R, "guarded table reads", n, 1)
